@@ -272,3 +272,46 @@ def json_object_is_row(ctx, rule='R16j'):
                 pseudo(stores[0].targets[0].slice) == loops[0].target.elts[0].id and pseudo(stores[0].value) == loops[0].target.elts[1].id
         run.check(okg, rule, gw.where, g.qualname, 'properties[k] = v for the entries of the transformed row (geometry apart)',
                   'the properties of a GeoJSON feature are not the entries of the transformed row under their field names')
+
+
+def observer_completes(ctx, rule='R6d'):
+    """An observer records a resource inside the generator it hands downstream (the dumper's writer finishes and copies out the file
+    after its row loop; the stream writer writes each row as it passes).  What it has recorded when it goes on to the next resource is
+    therefore what the consumer chose to pull: a later step that stops reading a resource early (`yield from itertools.islice(rows, 2)`,
+    load's limiter on a (descriptor, iterators) source) leaves the observer with a part of the stream - or, for a file dumper, with no
+    data file at all.  The observer holds the generator and is resumed exactly when the consumer asks for the next resource: that is
+    where it can run the generator to its end."""
+    from sa.model import is_drain_call, is_drain_loop
+    run, repo, res = ctx.run, ctx.repo, ctx.res
+    run.rule(rule, 'OBSERVER-COMPLETES: in the resource loop of a recording observer (DumperBase.process_resources, stream), the '
+                   'per-resource generator that was yielded downstream is run to its end (drained) before the loop goes on')
+    sites = [repo.cls('dataflows.processors.dumpers.dumper_base:DumperBase').methods.get('process_resources'),
+             repo.func('dataflows.processors.stream:stream.func')]
+    n = 0
+    for f0 in sites:
+        if f0 is None:
+            raise AnalysisError('observer resource loop not found (DumperBase.process_resources)')
+        f = ctx.N(f0)
+        loops = [l for l in own_nodes(f.node) if isinstance(l, ast.For) and any(isinstance(y, ast.Yield) for st in l.body for y in ast.walk(st))]
+        if len(loops) != 1:
+            raise AnalysisError('%s: the loop that yields one generator per resource was not found' % f0.qualname)
+        lp = loops[0]
+        ypos = [i for i, st in enumerate(lp.body) if isinstance(st, ast.Expr) and isinstance(st.value, ast.Yield)]
+        if len(ypos) != 1:
+            raise AnalysisError('%s: expected one top-level yield in the resource loop' % f0.qualname)
+        y = lp.body[ypos[0]].value
+        held = pseudo(y.value)
+        drained = False
+        if held:
+            for st in lp.body[ypos[0] + 1:]:
+                if is_drain_loop(st, held):
+                    drained = True
+                for c in ast.walk(st):
+                    if isinstance(c, ast.Call) and c.args and pseudo(c.args[0]) == held and is_drain_call(res, c):
+                        drained = True
+        n += 1
+        run.check(drained, rule, where(repo, y), f0.qualname, 'yield <recording generator>; then run it to its end',
+                  'the generator in which the observer records a resource is handed downstream and never looked at again: when a later '
+                  'step stops reading that resource early, the observer has recorded only the rows that were pulled (a file dumper: no '
+                  'data file at all, while the descriptor is written)')
+    return n
